@@ -4,6 +4,8 @@ use super::{replay_link, run_link_scenarios, LinkScenario};
 use crate::explore::Violation;
 use crate::json::J;
 use crate::link::{describe, identify, Chan, Drain, Kind, Link, LinkCfg, PktInfo, Probe, Send};
+#[allow(unused_imports)]
+use crate::link::Probe as _;
 use crate::report::{Report, Tier};
 
 /// true iff every packet needed to rebuild message `id` (length `len`) of (dir, ch) has been
@@ -88,10 +90,15 @@ impl Probe for UnorderedProbe {
                 let id0 = l.cfg.msg_id0.unwrap_or(0);
                 for (k, s) in sub.iter().enumerate() {
                     if !self.seen[dir][ci][k] && fully_handed(l, dir, ch.id, id0 + k as u64, s.len()) {
-                        // identical twin already obtained in its place?
-                        let twins = sub.iter().filter(|x| *x == s).count();
+                        // identical payloads are interchangeable: as many copies must have been obtained as there
+                        // are complete messages with these bytes
+                        let handed_twins = sub
+                            .iter()
+                            .enumerate()
+                            .filter(|(k2, x)| *x == s && fully_handed(l, dir, ch.id, id0 + *k2 as u64, x.len()))
+                            .count();
                         let got_twins = got.iter().filter(|g| g.bytes == *s).count();
-                        if got_twins >= twins {
+                        if got_twins >= handed_twins {
                             continue;
                         }
                         return Err(Violation::new(
@@ -219,12 +226,108 @@ pub fn scenarios(tier: Tier) -> Vec<LinkScenario<fn() -> Box<dyn Probe>>> {
     out
 }
 
+/// scale class: `k` small messages are received and consumed while message #0 is still missing (its packets
+/// are lost every time), then early packets are replayed, then the network recovers
+pub fn scale_case(k: usize, kind: Kind) -> Option<Violation> {
+    let mut cfg = LinkCfg::base("scale", vec![Chan::new(0, kind, 50_000_000, 300)], vec![Chan::new(0, kind, 50_000_000, 300)]);
+    cfg.bytes_per_tick = 10_000_000;
+    let mut l = Link::new(&cfg);
+    let mut probe = UnorderedProbe::new();
+    let r = (|| -> Result<(), Violation> {
+        l.send(0, 0, 1)?;
+        let mut sent = 1usize;
+        let mut early: Vec<usize> = vec![];
+        let carries0 = |l: &Link, p: usize| matches!(&l.emitted[p].info, PktInfo::SmallReliable { msgs, .. } if msgs.iter().any(|(id, _)| *id == 0));
+        let mut tick = 0u32;
+        while sent < k + 1 || tick < 3 {
+            l.tick = tick;
+            let n = (k + 1 - sent).min(300);
+            for _ in 0..n {
+                l.send(0, 0, 2 + (sent % 3))?;
+                sent += 1;
+            }
+            l.update(0, 100)?;
+            let first = l.flush(0)?;
+            for p in first..l.emitted.len() {
+                if carries0(&l, p) {
+                    continue; // message #0 keeps getting lost
+                }
+                if early.len() < 3 {
+                    early.push(p);
+                }
+                l.deliver(0, p)?;
+            }
+            l.drain(0)?;
+            if kind == Kind::Unordered {
+                probe.on_drain(&l, 0)?;
+            }
+            l.update(1, 100)?;
+            let f2 = l.flush(1)?;
+            for p in f2..l.emitted.len() {
+                l.deliver(1, p)?;
+            }
+            tick += 1;
+        }
+        // replays of early packets: nothing may be obtained twice
+        for &p in &early {
+            l.deliver(0, p)?;
+            l.drain(0)?;
+            if kind == Kind::Unordered {
+                probe.on_drain(&l, 0)?;
+            }
+        }
+        // the network recovers
+        for _ in 0..8 {
+            l.lockstep_tick(100)?;
+            if kind == Kind::Unordered {
+                probe.on_drain(&l, 0)?;
+            }
+        }
+        for &p in &early {
+            l.deliver(0, p)?;
+            l.drain(0)?;
+        }
+        if kind == Kind::Unordered {
+            probe.on_drain(&l, 0)?;
+            probe.on_end(&l)?;
+        }
+        let (got, sub) = (l.obtained[0][0].len(), l.submitted[0][0].len());
+        if got != sub {
+            return Err(Violation::new(
+                if kind == Kind::Unordered { "C02/scale/not-exactly-once" } else { "C01/scale/not-exactly-once" },
+                format!("{} messages submitted, {} obtained ({} received while message #0 was missing)", sub, got, k),
+            ));
+        }
+        if kind == Kind::Ordered {
+            for (i, g) in l.obtained[0][0].iter().enumerate() {
+                if g.bytes != l.submitted[0][0][i] {
+                    return Err(Violation::new("C01/scale/not-a-prefix", format!("position {}", i)));
+                }
+            }
+        }
+        if let Some(r) = l.ends.disconnect_reason(0).or(l.ends.disconnect_reason(1)) {
+            return Err(Violation::new("C02/scale/disconnected", format!("{:?}", r)));
+        }
+        Ok(())
+    })();
+    r.err()
+}
+
 pub fn run(tier: Tier) -> i32 {
     let mut rep = Report::new("C02", tier);
     rep.rule("M2: every schedule with <= d deviations (per packet: drop/dup/delay1/delay2/dup-late; per batch: reverse; per tick: drain at end / skip / after every single arrival) over 5 ticks per scenario (script x tick length x direction) + fault-free tail; oracle: each obtained message byte-identical to a not-yet-obtained submitted one, complete messages are yielded by the next drain whatever older ids are missing, all obtained after the tail");
     rep.assume("sizes from {0,1,1200,1201,2401}; budgets ample (100 kB) so no budget disconnect is legitimate");
     let sc = scenarios(tier);
     run_link_scenarios(&mut rep, "m2", &sc, tier.pick(3, 4), tier.pick(120.0, 3000.0));
+    {
+        let ks: Vec<usize> = tier.pick(vec![300, 1100, 1500, 2500], vec![255, 256, 257, 1023, 1024, 1025, 1100, 1500, 2500, 5000]);
+        for &k in &ks {
+            if let Some(v) = scale_case(k, Kind::Unordered) {
+                rep.violation("scale", v, J::obj().set("kind", J::s("scale")).set("k", J::i(k as u64)));
+            }
+        }
+        rep.add_sweep("scale", ks.len() as u64, ks.len() as u64, 1, vec![format!("k in {:?} messages received and consumed while message #0 is missing, early packets replayed before and after recovery", ks)]);
+    }
     if rep.machinery.is_none() {
         rep.rule("M1 (API soup): every interleaving up to depth D of send / update / flush / deliver / drop / duplicate / receive with <= 3 packets in flight per direction on an unordered channel; at-most-once + provenance after every call, completeness probe on a clone in every state");
         super::soup::run_soup(&mut rep, tier, "soup", Kind::Unordered, super::soup::O_UNORDERED, &["C02/"]);
@@ -239,6 +342,20 @@ pub fn replay(j: &J) -> i32 {
     };
     if j.get("kind").and_then(|k| k.as_str()) == Some("trace") {
         return super::soup::replay_soup(j, Kind::Unordered, super::soup::O_UNORDERED);
+    }
+    if j.get("kind").and_then(|k| k.as_str()) == Some("scale") {
+        let k = j.get("k").and_then(|x| x.as_i()).unwrap_or(1100) as usize;
+        println!("scale case: {} messages while message #0 is missing", k);
+        return match scale_case(k, Kind::Unordered) {
+            Some(v) => {
+                println!("RESULT: violation {} — {}", v.signature, v.message);
+                1
+            }
+            None => {
+                println!("RESULT: no violation");
+                0
+            }
+        };
     }
     replay_link(&scenarios(tier), j)
 }
